@@ -167,7 +167,7 @@ PROPS["C04"] = {
     "level_note": "parse_conditions' accounting is proved: the three accumulators (limit, bundle, spend) move by exactly the table cost of each condition, charged before its arguments are parsed, with CostExceeded exactly when the charge does not fit; SPEND_COST in process_single_spend. The driver exits are proved in unit drivers: run_spendbundle and run_block_generator2 report exactly generator size cost (serialized length minus the quote wrapper, resp. program length, resp. interned virtual bytes, times cost_per_byte) + CLVM execution cost + condition cost, never more than the limit, every charge through subtract_cost, under the cost-conservation contract of process_single_spend proved in unit conditions_aggsig. CLVM execution cost is whatever run_program returns (assumed <= the budget it was given when that budget is positive; clvmr reads a budget of 0 as no limit, for which only a physical bound of 2^62 cost units is assumed; run_spendbundle's contract requires max_cost <= 2^62). Exactness of the limit end to end (a budget equal to the cost passes, one less fails) is a relation between two runs: decided on ground bundles on both paths with and without COST_CONDITIONS (task paths_ground), since a one-directional contract cannot see a test that rejects too early.",
     "components": [V("costs"), V("conditions_effects"), N("native_cost_table", "cost_table"), V("drivers"), N("native_paths_ground", "paths_ground")],
     "assumptions": [
-        "clvmr cost model (run_program's reported cost) and intern_tree contract",
+        "clvmr cost model: run_program reports at most the budget it was given when that budget is positive; a budget of 0 is no limit to clvmr, and then only a physical bound is assumed (a run that returns reports at most 2^62 cost units); run_spendbundle is verified for max_cost <= 2^62", "intern_tree contract",
         "allocator limits (< 2^32 heap bytes / atoms / pairs) as the precondition of interned_vbytes",
     ],
     "not_covered": [
